@@ -318,6 +318,11 @@ def main():
             chk.case("%s.o%d%d" % (sec, od[0], od[1]), case_matrix, order=od, sector=sec)
     for o in (1, 2, 3):
         chk.case("midpoint-vs-ns.o%d" % o, case_midpoint_vs_ns, order=o)
+    # "for the same coupling steps": the steps the real Operator supplies (geometric a_s nodes, midpoint couplings of each step)
+    from . import opwire
+
+    chk.bounds.append("Operator.compute_aem_list on symbolic scales, 2 and 3 iterations (quick) / 1-3 (thorough), running and fixed alpha_em")
+    opwire.add_cases(chk, "C14", thorough, qcd=False)
     return chk.run()
 
 
